@@ -347,3 +347,39 @@ def executemany_sets(k: int, n: int) -> bool:
         if av != x or not b.is_string or b.this != s:
             return done(False)
     return done(True)
+
+
+# ------------------------------------------------------------------ equal-comparing values of different Python types keep their own literals
+TYPED = [True, 1, False, 0, None, "1", "TRUE", "", 10, "10"]
+TYPED_LIT = ["TRUE", "1", "FALSE", "0", "NULL", "'1'", "'TRUE'", "''", "10", "'10'"]
+
+
+def _typed(i0: int, i1: int, i2: int, as_dict: bool, reuse: bool) -> bool:
+    duck, conn, cur = _cursor()
+    idx = [i0, i1, i2]
+    if reuse:
+        # an earlier statement on the same cursor bound the first value already
+        cur._rewrite_with_params("select %s", (TYPED[i0],))
+    if as_dict:
+        text, rest = cur._rewrite_with_params("select %(a)s, %(b)s, %(c)s", {"a": TYPED[i0], "b": TYPED[i1], "c": TYPED[i2]})
+    else:
+        text, rest = cur._rewrite_with_params("select %s, %s, %s", tuple(TYPED[i] for i in idx))
+    return rest is None and text == "select " + ", ".join(TYPED_LIT[i] for i in idx)
+
+
+@ob(
+    "C08.values_keep_the_literal_of_their_own_type",
+    encodes=["fakesnow.cursor.FakeSnowflakeCursor._rewrite_with_params", "SnowflakeConverter.to_snowflake/escape/quote (real, real dispatch: concrete values)"],
+    bounds="three parameters drawn by symbolic index from {True, 1, False, 0, None, '1', 'TRUE', '', 10, '10'} (values that compare or hash equal across "
+    "types), tuple or dict binding, with or without an earlier statement on the same cursor that bound the first value: each is written as the literal "
+    "of its own type",
+    timeout=(300, 600),
+    shards=(10, 10),
+)
+def typed_values(i0: int, i1: int, i2: int, as_dict: bool, reuse: bool) -> bool:
+    """
+    pre: 0 <= i0 < 10 and 0 <= i1 < 10 and 0 <= i2 < 10 and (SHARD < 0 or i0 == SHARD)
+    post: _
+    """
+    P = fast.pick
+    return done(fast.native(_typed, P(i0, 10), P(i1, 10), P(i2, 10), bool(P(as_dict, 2)), bool(P(reuse, 2))))
